@@ -256,9 +256,16 @@ def c06_queries(P, R, G):
 # replay on the real parsers
 # ---------------------------------------------------------------------------------------------
 _astdump = {}
+_astdump_lock = __import__('threading').Lock()
 
 
 def astdump_bin(scratch):
+    # the table job and the lexical-grammar job run in parallel threads: build once
+    with _astdump_lock:
+        return _astdump_bin_locked(scratch)
+
+
+def _astdump_bin_locked(scratch):
     if 'bin' in _astdump:
         return _astdump['bin']
     d = os.path.join(scratch, 'astdump')
